@@ -280,6 +280,10 @@ pub enum Via {
     Remote,
     /// `catch_unwind(|| child)`: the child's subtree ends in a scripted panic (`Node::unwinds`).
     Catch,
+    /// CANCELLATION: the child's future is created, polled `polls` times by hand and then DROPPED.
+    /// The child is a chain of `polls` async nodes, each suspended at a yield or inside the next
+    /// one (`Node::unwinds`: their bodies never get to the end); `polls == 0`: never polled.
+    Cancel { polls: u8 },
 }
 
 #[derive(Clone, Debug, PartialEq, Eq, Hash)]
@@ -434,6 +438,7 @@ impl Node {
                         },
                         Via::Remote => b'R',
                         Via::Catch => b'C',
+                        Via::Cancel { polls } => b'0' + polls,
                     });
                     node.shape(out);
                 }
@@ -480,6 +485,7 @@ struct Profile {
     p_ending: u64,
     p_catch: u64,
     p_setup: u64,
+    p_cancel: u64,
 }
 
 struct Gen<'a> {
@@ -528,6 +534,49 @@ impl<'a> Gen<'a> {
     fn eid(&mut self) -> u32 {
         self.next_eid += 1;
         self.next_eid
+    }
+
+    /// A chain of `left` async nodes for `Via::Cancel`: events, ONE yield, then the next node of the
+    /// chain (awaited directly). After `left` polls every node of the chain has started, the last
+    /// one is suspended at its yield and all the others inside the await of the next one.
+    fn cancel_chain(&mut self, depth: u32, left: u8) -> Node {
+        self.next_id += 1;
+        let id = self.next_id;
+        let tp = self.cfg.traceparent;
+        let mut steps = Vec::new();
+        for _ in 0..self.g.below(3) {
+            let e = self.eid();
+            steps.push(Step::Event(e));
+        }
+        steps.push(Step::Yield);
+        if left > 1 {
+            if self.g.bool() {
+                let e = self.eid();
+                steps.push(Step::Event(e));
+            }
+            let node = self.cancel_chain(depth + 1, left - 1);
+            steps.push(Step::Child { node, via: Via::Direct });
+        }
+        Node {
+            id,
+            enabled: tp || !self.g.chance(self.p.p_disabled, 16),
+            is_async: true,
+            variant: match self.g.below(if tp { 7 } else { 9 }) {
+                0 => Variant::ResultAware { fail: false },
+                1 => Variant::Guard(GuardEnd::CompleteWith),
+                2 => Variant::Guard(GuardEnd::Complete),
+                // `new_span!` + `frame.in_future`
+                3 | 4 => Variant::Manual {
+                    travel: Travel::Task,
+                    when: !tp && self.g.bool(),
+                    complete_with: self.g.bool(),
+                },
+                7 | 8 => Variant::When,
+                _ => Variant::RtFilter,
+            },
+            steps,
+            unwinds: left > 0,
+        }
     }
 
     /// A sync node whose body ends in a panic (directly, or through a child that does).
@@ -842,6 +891,15 @@ impl<'a> Gen<'a> {
                     steps.push(Step::Child { node, via: Via::Catch });
                     continue;
                 }
+                if self.g.chance(self.p.p_cancel, 16) {
+                    let polls = self.g.below(4) as u8;
+                    let node = self.cancel_chain(depth + 1, polls);
+                    steps.push(Step::Child {
+                        node,
+                        via: Via::Cancel { polls },
+                    });
+                    continue;
+                }
                 let via = self.via(top);
                 let node = self.node(depth + 1, false, !top && takes_deferred && via == Via::Direct);
                 // a `new_span!` frame that travels is entered from right here
@@ -883,6 +941,7 @@ pub fn gen_tree(g: &mut Rng, cfg: &GenCfg) -> Node {
         p_ending: *g.pick(&[0u64, 3, 5, 8]),
         p_catch: if cfg.traceparent { *g.pick(&[0u64, 2, 3, 5]) } else { *g.pick(&[0u64, 1, 2, 4]) },
         p_setup: if cfg.traceparent { *g.pick(&[0u64, 2, 4]) } else { 0 },
+        p_cancel: *g.pick(if dense { &[2u64, 3, 4, 4] } else { &[0u64, 1, 2, 3] }),
     };
     let budget = 1 + g.below(cfg.max_nodes as u64) as u32;
     let mut gen = Gen {
@@ -1781,6 +1840,20 @@ fn run_via_blocking<X: Env>(parent: u32, i: u16, child: &Node, via: &Via, cx: &T
             let r = vcommon::catch(|| run_node::<X>(child, cx));
             cx.0.caught.lock().unwrap().push((parent, i, r.is_err()));
         }
+        Via::Cancel { polls } => {
+            let mut fut = run_any_async::<X>(child, cx);
+            let mut waker_cx = Context::from_waker(Waker::noop());
+            let mut finished = false;
+            for _ in 0..*polls {
+                if fut.as_mut().poll(&mut waker_cx).is_ready() {
+                    finished = true;
+                    break;
+                }
+            }
+            // the cancellation: every frame of the chain is dropped while suspended
+            drop(fut);
+            cx.0.caught.lock().unwrap().push((parent, i, finished));
+        }
         Via::Props { trace, span, parent: p, form } => {
             push_props::<X>(*trace, *span, *p, form).call(|| {
                 observe::<X>(cx, parent, Point::ViaIn(i));
@@ -1945,7 +2018,7 @@ async fn body_async<X: Env>(node: &Node, cx: &TreeCx) {
                             })
                             .await
                     }
-                    Via::Thread | Via::Remote | Via::TraceOnly { .. } | Via::Plain { .. } | Via::Catch => {
+                    Via::Thread | Via::Remote | Via::TraceOnly { .. } | Via::Plain { .. } | Via::Catch | Via::Cancel { .. } => {
                         run_via_blocking::<X>(node.id, i, child, via, cx)
                     }
                 }
